@@ -103,3 +103,14 @@ check('C11', 'proof',
       "ideal mixing rule); A-pint (unit factors are the pint floats, compared with textbook constants); distinct T/P values differ by >= 1e-6 (library tolerance 1e-12); a link "
       "requires the same package. MW concrete at stream level. Known findings F-C11-4a..c (linked MultiStreams growing a phase) printed as KNOWN-FINDING; 3 defects repaired.",
       "deductive: sidecar contracts + VC generation by symbolic execution of the real functions (QF_NRA), z3 discharge, native replay", "DESIGN.md 4/C11")
+check('C16', 'other',
+      "Proved (mode S) for all real x on the simplex and T in 250-450 K, per enumerated structure, on the Python source of the njit kernels: the gather/scatter of gamma_UNIFAC "
+      "and gamma_modified_UNIFAC with the frame on x and all other arguments (evaluating a model never modifies the caller's array), gamma = 1 for members without groups, the "
+      "normalised sub-composition, no stale scratch state, functional form == object call, ideal activity/fugacity/Poynting models return one, and gamma_i = 1 at the vertices "
+      "for all T and all interaction parameters (group_activity_coefficients/loggammacs executed as real code on symbolic R, Q). Checked only as BOUNDED run-time contracts "
+      "(mode B) on the real compiled models: gamma_i -> 1 as x_i -> 1, Gibbs-Duhem by central differences, permutation invariance, purity of the compiled code; 2-6 chemicals, "
+      "250-450 K grid.",
+      "The decisive limit / Gibbs-Duhem / permutation clauses are bounded (mode B), hence level 'other'. A-real; group_activity_coefficients and loggammacs_* uninterpreted in the "
+      "scatter and object-call groups; exp, log, r**0.75 uninterpreted with ground-instantiated laws; structures <= 5 chemicals, 2-3 groups in the symbolic part; NIST group "
+      "assignments made in the contract. 3 defects repaired.",
+      "symbolic execution of the real kernels' Python source with z3 discharge (frame/scatter/vertex clauses) + bounded run-time contracts on the compiled models", "DESIGN.md 4/C16")
